@@ -67,7 +67,7 @@ func propagateAttachmentOffsets(pos []GlyphPosition, i int, direction Direction)
 
 	j := i + int(chain)
 
-	if j >= len(pos) {
+	if j < 0 || j >= len(pos) {
 		return
 	}
 
@@ -437,7 +437,7 @@ func (c *otApplyContext) applyGPOSCursive(data tables.CursivePos, covIndex int) 
 	reverseCursiveMinorOffset(pos, child, c.direction, parent)
 
 	pos[child].attachType = attachTypeCursive
-	pos[child].attachChain = int16(parent - child)
+	pos[child].attachChain = int32(parent - child)
 	buffer.scratchFlags |= bsfHasGPOSAttachment
 	if c.direction.isHorizontal() {
 		pos[child].YOffset = yOffset
@@ -519,7 +519,7 @@ func (c *otApplyContext) applyGPOSMarks(marks tables.MarkArray, markIndex, glyph
 	o.XOffset = roundf(baseX - markX)
 	o.YOffset = roundf(baseY - markY)
 	o.attachType = attachTypeMark
-	o.attachChain = int16(glyphPos - buffer.idx)
+	o.attachChain = int32(glyphPos - buffer.idx)
 	buffer.scratchFlags |= bsfHasGPOSAttachment
 
 	buffer.idx++
